@@ -150,7 +150,7 @@ Definition cert_ok (S : structure) : bool :=
 (* Non-matching mortar / fracture grids: the integrated projections have entries such as
    1/3 that are not binary fractions, so their float column sums are 1 only up to rounding.
    The supports are checked exactly, the column sums within 1e-12. *)
-Definition cert_support (S : structure) : bool :=
+Definition cert_supp (S : structure) : bool :=
   forallb (fun t => (i_cell t <? s_nc S)%nat && (i_face t <? s_nf S)%nat) (s_div S)
   && forallb (face_ok (s_div S)) (seq 0 (s_nf S))
   && forallb (fun t => (w_row t <? s_nf S)%nat && is_boundary (s_div S) (w_row t)
@@ -158,7 +158,7 @@ Definition cert_support (S : structure) : bool :=
   && forallb (fun t => (w_row t <? s_nc S)%nat && (w_mortar t <? s_nm S)%nat) (s_ps S).
 Definition near_one (x : Q) : bool := Qle_bool (Qabs (x - 1)) (1 # 1000000000000).
 Definition cert_ok_tol (S : structure) : bool :=
-  cert_support S
+  cert_supp S
   && forallb (fun m => near_one (qpcolsum (s_pp S) m) && near_one (qpcolsum (s_ps S) m))
              (seq 0 (s_nm S)).
 
